@@ -204,7 +204,12 @@ func inlinableDecl(p *packages.Package, fd *ast.FuncDecl, o *types.Func) bool {
 	ok := true
 	ast.Inspect(fd.Body, func(n ast.Node) bool {
 		switch x := n.(type) {
-		case *ast.DeferStmt, *ast.GoStmt, *ast.LabeledStmt:
+		case *ast.DeferStmt:
+			// `defer it.Close()` may move to the caller's exit: the iterator is merely closed later
+			if se, isSel := x.Call.Fun.(*ast.SelectorExpr); !isSel || se.Sel.Name != "Close" || len(x.Call.Args) != 0 {
+				ok = false
+			}
+		case *ast.GoStmt, *ast.LabeledStmt:
 			ok = false
 		case *ast.BranchStmt:
 			if x.Tok == token.GOTO || x.Label != nil {
@@ -242,8 +247,178 @@ func inlineInFile(e *Engine, p *packages.Package, f *ast.File, callees map[*type
 		if o, ok := p.TypesInfo.Defs[fd.Name].(*types.Func); ok && callees[o] != nil {
 			continue // a helper's own body is inlined where it is called; nested helpers are folded in the next round
 		}
+		n += substPureCalls(e, p, f, fd.Body, callees)
 		n += inlineInBlock(e, p, f, fd.Body, callees)
 	}
+	return n
+}
+
+func pureArg(x ast.Expr) bool {
+	switch v := x.(type) {
+	case *ast.Ident, *ast.BasicLit:
+		return true
+	case *ast.SelectorExpr:
+		return pureArg(v.X)
+	case *ast.ParenExpr:
+		return pureArg(v.X)
+	case *ast.StarExpr:
+		return pureArg(v.X)
+	case *ast.UnaryExpr:
+		return v.Op == token.AND && pureArg(v.X)
+	}
+	return false
+}
+
+// substPureCalls replaces, anywhere in an expression, a call of a new helper whose body is a single `return <expr>` by that
+// expression with the (side-effect free) arguments substituted for the parameters — predicates and small getters.
+func substPureCalls(e *Engine, p *packages.Package, f *ast.File, body *ast.BlockStmt, callees map[*types.Func]*inlCallee) int {
+	n := 0
+	astutil.Apply(body, nil, func(cur *astutil.Cursor) bool {
+		c, ok := cur.Node().(*ast.CallExpr)
+		if !ok {
+			return true
+		}
+		cal := calleeOfCall(p, c, callees)
+		if cal == nil || len(cal.decl.Body.List) != 1 {
+			return true
+		}
+		rs, ok := cal.decl.Body.List[0].(*ast.ReturnStmt)
+		if !ok || len(rs.Results) != 1 {
+			return true
+		}
+		sig := cal.obj.Type().(*types.Signature)
+		if sig.Results().Len() != 1 {
+			return true
+		}
+		hasLit := false
+		ast.Inspect(rs.Results[0], func(m ast.Node) bool {
+			if _, ok := m.(*ast.FuncLit); ok {
+				hasLit = true
+			}
+			return !hasLit
+		})
+		if hasLit {
+			return true
+		}
+		for _, a := range c.Args {
+			if !pureArg(a) {
+				return true
+			}
+		}
+		callScope := p.Types.Scope().Innermost(c.Pos())
+		if callScope == nil {
+			return true
+		}
+		okFree := true
+		needImports := map[string]string{}
+		ast.Inspect(rs.Results[0], func(m ast.Node) bool {
+			id, ok := m.(*ast.Ident)
+			if !ok {
+				return true
+			}
+			obj := p.TypesInfo.Uses[id]
+			if obj == nil {
+				return true
+			}
+			switch o := obj.(type) {
+			case *types.PkgName:
+				_, at := callScope.LookupParent(id.Name, c.Pos())
+				if at == nil {
+					needImports[id.Name] = o.Imported().Path()
+				} else if pn, ok := at.(*types.PkgName); !ok || pn.Imported().Path() != o.Imported().Path() {
+					okFree = false
+				}
+			default:
+				if obj.Parent() == p.Types.Scope() || obj.Parent() == types.Universe {
+					if _, at := callScope.LookupParent(id.Name, c.Pos()); at != obj {
+						okFree = false
+					}
+				}
+			}
+			return okFree
+		})
+		if !okFree {
+			return true
+		}
+		cp := reparseDecl(e, cal)
+		if cp == nil || len(cp.Body.List) != 1 {
+			return true
+		}
+		expr := cp.Body.List[0].(*ast.ReturnStmt).Results[0]
+		subst := map[string]ast.Expr{}
+		if sig.Recv() != nil {
+			se, ok := c.Fun.(*ast.SelectorExpr)
+			if !ok {
+				return true
+			}
+			if sel := p.TypesInfo.Selections[se]; sel != nil && len(sel.Index()) > 1 {
+				return true
+			}
+			if !pureArg(se.X) {
+				return true
+			}
+			if cp.Recv != nil && len(cp.Recv.List) == 1 && len(cp.Recv.List[0].Names) == 1 {
+				subst[cp.Recv.List[0].Names[0].Name] = se.X
+			}
+		}
+		ai := 0
+		for _, fl := range cp.Type.Params.List {
+			if len(fl.Names) == 0 {
+				ai++
+				continue
+			}
+			for _, nm := range fl.Names {
+				if ai >= len(c.Args) {
+					return true
+				}
+				if nm.Name != "_" {
+					subst[nm.Name] = c.Args[ai]
+				}
+				ai++
+			}
+		}
+		if ai != len(c.Args) {
+			return true
+		}
+		// a parameter used as the operand of & or assigned cannot be substituted by a value expression: none in a pure
+		// return expression except &param, which we refuse
+		bad := false
+		ast.Inspect(expr, func(m ast.Node) bool {
+			if u, ok := m.(*ast.UnaryExpr); ok && u.Op == token.AND {
+				if id, ok := u.X.(*ast.Ident); ok && subst[id.Name] != nil {
+					bad = true
+				}
+			}
+			return !bad
+		})
+		if bad {
+			return true
+		}
+		newExpr := astutil.Apply(expr, nil, func(cc *astutil.Cursor) bool {
+			if id, ok := cc.Node().(*ast.Ident); ok {
+				// only identifiers in value position: a selector's Sel and a key of a composite literal are not uses
+				if se, ok := cc.Parent().(*ast.SelectorExpr); ok && se.Sel == id {
+					return true
+				}
+				if kv, ok := cc.Parent().(*ast.KeyValueExpr); ok && kv.Key == ast.Expr(id) {
+					return true
+				}
+				if r, ok := subst[id.Name]; ok {
+					cc.Replace(&ast.ParenExpr{X: r})
+				}
+			}
+			return true
+		})
+		for name, path := range needImports {
+			astutil.AddNamedImport(e.Fset, f, name, path)
+		}
+		cur.Replace(&ast.ParenExpr{X: newExpr.(ast.Expr)})
+		if foldedOf != nil {
+			foldedOf[cal.obj]++
+		}
+		n++
+		return true
+	})
 	return n
 }
 
@@ -257,8 +432,8 @@ func calleeOfCall(p *packages.Package, c *ast.CallExpr, callees map[*types.Func]
 		if o, ok := p.TypesInfo.Uses[fun.Sel].(*types.Func); ok {
 			if cal := callees[o]; cal != nil {
 				if sel := p.TypesInfo.Selections[fun]; sel != nil {
-					if sel.Kind() != types.MethodVal || len(sel.Index()) != 1 {
-						return nil // promoted through an embedded field, or a method expression
+					if sel.Kind() != types.MethodVal {
+						return nil // a method expression
 					}
 				}
 				return cal
@@ -598,13 +773,19 @@ func expandCallOpt(e *Engine, p *packages.Package, f *ast.File, c *ast.CallExpr,
 		for _, im := range f.Imports {
 			path := strings.Trim(im.Path.Value, "\"")
 			if path == pk.Path() {
+				nm := pk.Name()
 				if im.Name != nil {
 					if im.Name.Name == "_" || im.Name.Name == "." {
 						break
 					}
-					return im.Name.Name
+					nm = im.Name.Name
 				}
-				return pk.Name()
+				if _, at := callScope.LookupParent(nm, c.Pos()); at != nil {
+					if pn, ok := at.(*types.PkgName); ok && pn.Imported().Path() == pk.Path() {
+						return nm
+					}
+				}
+				// the import's name is shadowed where the call stands (a parameter called like the package)
 			}
 		}
 		alias := fmt.Sprintf("zzimp%d%s", id, pk.Name())
@@ -621,9 +802,6 @@ func expandCallOpt(e *Engine, p *packages.Package, f *ast.File, c *ast.CallExpr,
 		}
 		pre = append(pre, &ast.DeclStmt{Decl: &ast.GenDecl{Tok: token.VAR, Specs: []ast.Spec{&ast.ValueSpec{Names: []*ast.Ident{ast.NewIdent(name)}, Type: texpr}}}})
 		resExprs = append(resExprs, ast.NewIdent(name))
-	}
-	for name, path := range needImports {
-		astutil.AddNamedImport(e.Fset, f, name, path)
 	}
 	// bind receiver and parameters, in evaluation order
 	var lhs []ast.Expr
@@ -648,14 +826,32 @@ func expandCallOpt(e *Engine, p *packages.Package, f *ast.File, c *ast.CallExpr,
 			rname = copyDecl.Recv.List[0].Names[0].Name
 		}
 		xt := p.TypesInfo.TypeOf(se.X)
+		var recvX ast.Expr = se.X
+		if sel := p.TypesInfo.Selections[se]; sel != nil && len(sel.Index()) > 1 {
+			// promoted through embedded fields: spell the path out
+			t := xt
+			for _, ix := range sel.Index()[:len(sel.Index())-1] {
+				if pt, ok := t.Underlying().(*types.Pointer); ok {
+					t = pt.Elem()
+				}
+				st, ok := t.Underlying().(*types.Struct)
+				if !ok || ix >= st.NumFields() {
+					return nil, nil
+				}
+				fld := st.Field(ix)
+				recvX = &ast.SelectorExpr{X: recvX, Sel: ast.NewIdent(fld.Name())}
+				t = fld.Type()
+			}
+			xt = t
+		}
 		_, recvPtr := sig.Recv().Type().(*types.Pointer)
 		_, argPtr := xt.Underlying().(*types.Pointer)
-		var val ast.Expr = se.X
+		var val ast.Expr = recvX
 		switch {
 		case recvPtr && !argPtr:
-			val = &ast.UnaryExpr{Op: token.AND, X: se.X}
+			val = &ast.UnaryExpr{Op: token.AND, X: recvX}
 		case !recvPtr && argPtr:
-			val = &ast.StarExpr{X: se.X}
+			val = &ast.StarExpr{X: recvX}
 		}
 		bind(rname, val)
 	}
@@ -755,6 +951,9 @@ func expandCallOpt(e *Engine, p *packages.Package, f *ast.File, c *ast.CallExpr,
 		if !rewriteReturnsErr(copyDecl.Body, resNames, label, ec, errVar) {
 			return nil, nil
 		}
+		// the error result lives in errVar
+		resExprs[len(resExprs)-1] = ast.NewIdent(errVar)
+		pre = append(pre, &ast.AssignStmt{Lhs: []ast.Expr{ast.NewIdent("_")}, Tok: token.ASSIGN, Rhs: []ast.Expr{ast.NewIdent(resNames[len(resNames)-1])}})
 	} else {
 		rewriteReturns(copyDecl.Body, resNames, label)
 	}
@@ -762,6 +961,9 @@ func expandCallOpt(e *Engine, p *packages.Package, f *ast.File, c *ast.CallExpr,
 	body = append(body, &ast.BranchStmt{Tok: token.BREAK, Label: ast.NewIdent(label)}) // a label must be used
 	sw := &ast.SwitchStmt{Body: &ast.BlockStmt{List: []ast.Stmt{&ast.CaseClause{Body: body}}}}
 	pre = append(pre, &ast.LabeledStmt{Label: ast.NewIdent(label), Stmt: sw})
+	for name, path := range needImports {
+		astutil.AddNamedImport(e.Fset, f, name, path)
+	}
 	if foldedOf != nil {
 		foldedOf[cal.obj]++
 	}
@@ -1061,6 +1263,19 @@ func provablyNonNilErrExpr(x ast.Expr, stack []ast.Node) bool {
 				switch pk.Name + "." + se.Sel.Name {
 				case "errors.New", "fmt.Errorf":
 					return true
+				}
+			}
+			// ErrSomething.Wrap(..) / pkg.ErrSomething.Wrapf(..): methods of a registered error never return nil
+			if se.Sel.Name == "Wrap" || se.Sel.Name == "Wrapf" {
+				switch r := se.X.(type) {
+				case *ast.Ident:
+					if strings.HasPrefix(r.Name, "Err") {
+						return true
+					}
+				case *ast.SelectorExpr:
+					if strings.HasPrefix(r.Sel.Name, "Err") {
+						return true
+					}
 				}
 			}
 		}
